@@ -137,6 +137,7 @@ theorem cleanList_lookup (fs : List Fut) (aw : AW) (i : Nat) (hno : NoFutIdx fs 
     unfold cleanList
     split
     · exact ih aw hno'
+    · exact ih aw hno'
     · split
       · rename_i c hk
         rw [ih _ hno']
@@ -184,12 +185,14 @@ theorem cleanList_af (fs : List Fut) (aw : AW) (haf : AF aw fs) :
             unfold cleanList
             split
             · simp only [List.map_cons, List.countP_cons]; have := ihx a; omega
+            · simp only [List.map_cons, List.countP_cons]; have := ihx a; omega
             · split
               · simp only [List.map_cons, List.countP_cons]; exact Nat.le_trans (ihx _) (Nat.le_add_right _ _)
               · simp only [List.map_cons, List.countP_cons]; have := ihx a; omega
         simp only [List.map_cons, List.countP_cons] at hu ⊢
         have := hsub gs aw
         omega
+    · exact ih aw htail
     · rename_i t hr
       split
       · rename_i c hk
@@ -210,10 +213,14 @@ theorem cleanList_af (fs : List Fut) (aw : AW) (haf : AF aw fs) :
           exact haf.fut_aw f (List.mem_cons_of_mem _ hf) c' hk'
       · exact ih aw htail
 
-theorem setResult_keys (fs : List Fut) (i t : Nat) : (setResult fs i t).map (·.key) = fs.map (·.key) := by
+theorem set_keys (fs : List Fut) (i : Nat) (f f' : Fut) (h : fs[i]? = some f) (hk : f'.key = f.key) :
+    (fs.set i f').map (·.key) = fs.map (·.key) := by
   induction fs generalizing i with
   | nil => rfl
-  | cons g gs ih => cases i <;> simp [setResult, ih]
+  | cons g gs ih =>
+    cases i with
+    | zero => simp at h; subst h; simp [hk]
+    | succ i => simp at h; simp [ih i h]
 
 theorem af_keys {aw : AW} {fs fs' : List Fut} (haf : AF aw fs) (hk : fs'.map (·.key) = fs.map (·.key)) : AF aw fs' := by
   refine ⟨haf.key_idx, haf.nodup, ?_, ?_⟩
@@ -223,17 +230,112 @@ theorem af_keys {aw : AW} {fs fs' : List Fut} (haf : AF aw fs) (hk : fs'.map (·
     exact haf.fut_aw g hg c (hgk.trans hc)
   · intro i; rw [hk]; exact haf.fut_uniq i
 
-theorem execKey_fields (h : Nat) (key : Key) (w : World) (k : Nat) :
-    ((execKey h key w).hosts k).awaiting = (w.hosts k).awaiting ∧
-    ((execKey h key w).hosts k).acks = (w.hosts k).acks ∧
-    ((execKey h key w).hosts k).invalid = (w.hosts k).invalid := by
-  cases key with
-  | cmd c => simp [execKey, execSend_host]
-  | pay p =>
-    simp only [execKey, execStore]
-    split
-    · simp [World.emit]
-    · simp [World.emit, World.setHost]; split <;> simp_all
+theorem report_fields (h : Nat) (m : EMsg) (e : Event) (w : World) (k : Nat) :
+    ((w.report h m e).hosts k).awaiting = (w.hosts k).awaiting ∧
+    ((w.report h m e).hosts k).acks = (w.hosts k).acks ∧
+    ((w.report h m e).hosts k).invalid = (w.hosts k).invalid := by
+  simp [World.report, World.setHost, World.emit]; split <;> simp_all
+
+theorem sendOpen_fields (h : Nat) (c : Cmd) (flt : Fault) (w : World) (k : Nat) :
+    ((sendOpen h c flt w).1.hosts k).awaiting = (w.hosts k).awaiting ∧
+    ((sendOpen h c flt w).1.hosts k).acks = (w.hosts k).acks ∧
+    ((sendOpen h c flt w).1.hosts k).invalid = (w.hosts k).invalid := by
+  unfold sendOpen
+  split
+  · exact report_fields _ _ _ _ k
+  · split
+    · exact report_fields _ _ _ _ k
+    · split
+      · exact report_fields _ _ _ _ k
+      · exact ⟨rfl, rfl, rfl⟩
+
+theorem sendData_fields (h : Nat) (c : Cmd) (flt : Fault) (w : World) (k : Nat) :
+    ((sendData h c flt w).1.hosts k).awaiting = (w.hosts k).awaiting ∧
+    ((sendData h c flt w).1.hosts k).acks = (w.hosts k).acks ∧
+    ((sendData h c flt w).1.hosts k).invalid = (w.hosts k).invalid := by
+  unfold sendData
+  split
+  · exact report_fields _ _ _ _ k
+  · split
+    · exact report_fields _ _ _ _ k
+    · exact ⟨rfl, rfl, rfl⟩
+
+theorem storeStep_fields (h : Nat) (p : Payload) (st : Nat) (flt : Fault) (w : World) (k : Nat) :
+    ((storeStep h p st flt w).1.hosts k).awaiting = (w.hosts k).awaiting ∧
+    ((storeStep h p st flt w).1.hosts k).acks = (w.hosts k).acks ∧
+    ((storeStep h p st flt w).1.hosts k).invalid = (w.hosts k).invalid := by
+  unfold storeStep
+  simp only
+  split
+  · split
+    · exact report_fields _ _ _ _ k
+    · split
+      · exact ⟨rfl, rfl, rfl⟩
+      · simp [World.setHost]; split <;> simp_all
+  · split
+    · exact report_fields _ _ _ _ k
+    · simp [World.setHost, World.emit]; split <;> simp_all
+  · split
+    · exact report_fields _ _ _ _ k
+    · exact report_fields _ _ _ _ k
+
+theorem setFut_fields (h i : Nat) (f : Fut) (w : World) (k : Nat) :
+    ((w.setFut h i f).hosts k).awaiting = (w.hosts k).awaiting ∧
+    ((w.setFut h i f).hosts k).acks = (w.hosts k).acks ∧
+    ((w.setFut h i f).hosts k).invalid = (w.hosts k).invalid ∧
+    ((w.setFut h i f).hosts k).crashed = (w.hosts k).crashed ∧
+    ((w.setFut h i f).hosts k).sock = (w.hosts k).sock ∧
+    ((w.setFut h i f).hosts k).inbox = (w.hosts k).inbox ∧
+    (w.setFut h i f).now = w.now := by
+  simp [World.setFut, World.setHost]; split <;> simp_all
+
+theorem setFut_keys (h i : Nat) (f f' : Fut) (w : World) (k : Nat)
+    (hget : (w.hosts h).futs[i]? = some f) (hk : f'.key = f.key) :
+    ((w.setFut h i f').hosts k).futs.map (·.key) = (w.hosts k).futs.map (·.key) := by
+  simp only [World.setFut, World.setHost]
+  split
+  · rename_i hkk; subst hkk; simp only []; exact set_keys _ _ _ _ hget hk
+  · rfl
+
+theorem stepAt_fields (h i : Nat) (flt : Fault) (w : World) (k : Nat) :
+    ((stepAt h i flt w).hosts k).awaiting = (w.hosts k).awaiting ∧
+    ((stepAt h i flt w).hosts k).acks = (w.hosts k).acks ∧
+    ((stepAt h i flt w).hosts k).invalid = (w.hosts k).invalid ∧
+    ((stepAt h i flt w).hosts k).crashed = (w.hosts k).crashed ∧
+    ((stepAt h i flt w).hosts k).futs.map (·.key) = (w.hosts k).futs.map (·.key) := by
+  unfold stepAt
+  split
+  · simp
+  · split
+    · rename_i c st hget
+      split
+      · have h1 := sendOpen_fields h c flt w k
+        have h2 := sendOpen_crashed h c flt w k
+        have h3 := sendOpen_futs h c flt w
+        have hs := setFut_fields h i ⟨.cmd c, if (sendOpen h c flt w).2 then 1 else 0,
+          if (sendOpen h c flt w).2 then none else some (.ok w.now)⟩ (sendOpen h c flt w).1 k
+        refine ⟨hs.1.trans h1.1, hs.2.1.trans h1.2.1, hs.2.2.1.trans h1.2.2, hs.2.2.2.1.trans h2, ?_⟩
+        exact (setFut_keys h i ⟨.cmd c, st, none⟩ ⟨.cmd c, if (sendOpen h c flt w).2 then 1 else 0,
+          if (sendOpen h c flt w).2 then none else some (.ok w.now)⟩ (sendOpen h c flt w).1 k (by rw [h3]; exact hget) rfl).trans
+          (by rw [h3])
+      · have h1 := sendData_fields h c flt w k
+        have h2 := sendData_crashed h c flt w k
+        have h3 := sendData_futs h c flt w
+        have hs := setFut_fields h i ⟨.cmd c, st, some (sendData h c flt w).2⟩ (sendData h c flt w).1 k
+        refine ⟨hs.1.trans h1.1, hs.2.1.trans h1.2.1, hs.2.2.1.trans h1.2.2, hs.2.2.2.1.trans h2, ?_⟩
+        exact (setFut_keys h i ⟨.cmd c, st, none⟩ ⟨.cmd c, st, some (sendData h c flt w).2⟩ (sendData h c flt w).1 k
+          (by rw [h3]; exact hget) rfl).trans (by rw [h3])
+    · rename_i p st hget
+      have h1 := storeStep_fields h p st flt w k
+      have h2 := storeStep_crashed h p st flt w k
+      have h3 := storeStep_futs h p st flt w
+      have hs := setFut_fields h i ⟨.pay p, (storeStep h p st flt w).2.getD st,
+        if (storeStep h p st flt w).2.isSome then none else some (.ok w.now)⟩ (storeStep h p st flt w).1 k
+      refine ⟨hs.1.trans h1.1, hs.2.1.trans h1.2.1, hs.2.2.1.trans h1.2.2, hs.2.2.2.1.trans h2, ?_⟩
+      exact (setFut_keys h i ⟨.pay p, st, none⟩ ⟨.pay p, (storeStep h p st flt w).2.getD st,
+        if (storeStep h p st flt w).2.isSome then none else some (.ok w.now)⟩ (storeStep h p st flt w).1 k
+        (by rw [h3]; exact hget) rfl).trans (by rw [h3])
+    · simp
 
 theorem runAt_fields (h i : Nat) (w : World) (k : Nat) :
     ((runAt h i w).hosts k).awaiting = (w.hosts k).awaiting ∧
@@ -242,19 +344,11 @@ theorem runAt_fields (h i : Nat) (w : World) (k : Nat) :
     ((runAt h i w).hosts k).crashed = (w.hosts k).crashed ∧
     ((runAt h i w).hosts k).futs.map (·.key) = (w.hosts k).futs.map (·.key) := by
   unfold runAt
-  split
-  · simp
-  · split
-    · rename_i key _
-      have h1 := execKey_fields h key w k
-      have h2 := execKey_futs h key w k
-      have h1' := execKey_fields h key w h
-      have h2' := execKey_futs h key w h
-      by_cases hk : k = h
-      · subst hk
-        simp [World.setHost, h1, h2, setResult_keys]
-      · simp [World.setHost, hk, h1, h2]
-    · simp
+  have a := stepAt_fields h i .none w k
+  have b := stepAt_fields h i .none (stepAt h i .none w) k
+  have c := stepAt_fields h i .none (stepAt h i .none (stepAt h i .none w)) k
+  exact ⟨c.1.trans (b.1.trans a.1), c.2.1.trans (b.2.1.trans a.2.1), c.2.2.1.trans (b.2.2.1.trans a.2.2.1),
+    c.2.2.2.1.trans (b.2.2.2.1.trans a.2.2.2.1), c.2.2.2.2.trans (b.2.2.2.2.trans a.2.2.2.2)⟩
 
 theorem runChoice_fields (h c : Nat) (w : World) (k : Nat) :
     ((runChoice h c w).hosts k).awaiting = (w.hosts k).awaiting ∧
@@ -359,7 +453,7 @@ theorem af_erase {aw : AW} {fs : List Fut} (haf : AF aw fs) (e : Nat) (c : Cmd) 
   af_erase' haf e (af_noFut haf e c t hl)
 
 theorem af_resubmit' {aw : AW} {fs : List Fut} (haf : AF aw fs) (e : Nat) (c : Cmd)
-    (hidx : e = c.idx) (hno : NoFutIdx fs e) : AF (setA aw e (c, none)) (fs ++ [⟨.cmd c, none⟩]) := by
+    (hidx : e = c.idx) (hno : NoFutIdx fs e) : AF (setA aw e (c, none)) (fs ++ [⟨.cmd c, 0, none⟩]) := by
   refine ⟨?_, nodup_setA _ _ _ haf.nodup, ?_, ?_⟩
   · intro x hx
     rcases mem_setA _ _ _ _ hx with hx | hx
@@ -385,7 +479,7 @@ theorem af_resubmit' {aw : AW} {fs : List Fut} (haf : AF aw fs) (e : Nat) (c : C
       simpa using hu
 
 theorem af_resubmit {aw : AW} {fs : List Fut} (haf : AF aw fs) (e : Nat) (c : Cmd) (t : Nat)
-    (hl : lookup aw e = some (c, some t)) : AF (setA aw e (c, none)) (fs ++ [⟨.cmd c, none⟩]) :=
+    (hl : lookup aw e = some (c, some t)) : AF (setA aw e (c, none)) (fs ++ [⟨.cmd c, 0, none⟩]) :=
   af_resubmit' haf e c (haf.key_idx _ (lookup_mem _ _ _ hl)) (af_noFut haf e c t hl)
 
 theorem retryOne_other {h idx c t q} (e : Nat) {w : World} (hp : RP h idx c t w) (hq : RQ h (e :: q) w)
@@ -443,8 +537,9 @@ theorem retryOne_self {h idx c t} {w : World} (hp : RP h idx c t w) :
 
 theorem resubmit_mono_mstep {w w' : World} (hs : MStep w w') (h idx : Nat) :
     resubmitCnt w.log h idx ≤ resubmitCnt w'.log h idx := by
-  rcases (summ_mstep hs).log with hl | ⟨e, hl, _⟩ | ⟨e1, e2, hl, _, _⟩ <;> rw [hl] <;>
-    simp only [resubmitCnt, List.countP_cons] <;> omega
+  obtain ⟨evs, hl, _⟩ := (summ_mstep hs).log
+  rw [hl]
+  simp only [resubmitCnt, List.countP_append]; omega
 
 theorem resubmit_mono_mstar {w w' : World} (hs : MStar w w') (h idx : Nat) :
     resubmitCnt w.log h idx ≤ resubmitCnt w'.log h idx := by
@@ -491,7 +586,7 @@ theorem afw_same {w w' : World} (ha : AFW w)
 macro "afw_same_tac" ha:ident : tactic => `(tactic|
   first
   | exact $ha
-  | (apply afw_same $ha <;> intro k <;> (try simp [World.setHost, World.emit, World.crash]) <;>
+  | (apply afw_same $ha <;> intro k <;> (try simp [World.setHost, World.emit, World.crash, World.report]) <;>
       (try split) <;> (try simp_all)))
 
 theorem afw_deliver (i : Nat) (dup : Bool) {w : World} (ha : AFW w) : AFW (deliver i dup w) := by
@@ -525,10 +620,22 @@ theorem afw_cleanAll (h : Nat) {w : World} (ha : AFW w) : AFW (cleanAll h w) := 
     · subst hk; simpa [World.setHost] using cleanList_af _ _ (ha k)
     · simpa [World.setHost, hk] using ha k
 
-theorem afw_runAt (h i : Nat) {w : World} (ha : AFW w) : AFW (runAt h i w) := by
+theorem afw_stepAt (h i : Nat) (flt : Fault) {w : World} (ha : AFW w) : AFW (stepAt h i flt w) := by
   intro k
-  have hf := runAt_fields h i w k
+  have hf := stepAt_fields h i flt w k
   rw [hf.1]; exact af_keys (ha k) hf.2.2.2.2
+
+theorem afw_injectE (h ds : Nat) {w : World} (ha : AFW w) : AFW (injectE h ds w) := by
+  unfold injectE; afw_same_tac ha
+
+theorem afw_execHandle (h : Nat) {w : World} (ha : AFW w) : AFW (execHandle h w) := by
+  unfold execHandle
+  simp only
+  split
+  · exact ha
+  · afw_same_tac ha
+  · afw_same_tac ha
+  · split <;> afw_same_tac ha
 
 theorem lookup_filter {β : Type} (l : List (Nat × β)) (p : Nat × β → Bool) (k : Nat) (v : β)
     (hl : lookup l k = some v) (hp : p (k, v) = true) : lookup (l.filter p) k = some v := by
@@ -608,15 +715,10 @@ theorem afw_handleHead (h : Nat) {w : World} (ha : AFW w)
           simp [hc, Key.ds] at this
           simp [this]
         simp only [handleMsg, purgeAct, World.setHost, if_true]
-        split
-        · intro k
-          by_cases hk : k = h
-          · subst hk; simpa [World.crash, World.setHost, World.emit] using hfilt
-          · simpa [World.crash, World.setHost, World.emit, hk] using ha k
-        · intro k
-          by_cases hk : k = h
-          · subst hk; simpa [World.setHost, World.emit] using hfilt
-          · simpa [World.setHost, World.emit, hk] using ha k
+        intro k
+        by_cases hk : k = h
+        · subst hk; simpa [World.setHost, World.emit] using hfilt
+        · simpa [World.setHost, World.emit, hk] using ha k
 
 theorem afw_retryOne (h e : Nat) {w : World} (ha : AFW w) : AFW (retryOne h e w) := by
   have hah := ha h
@@ -657,7 +759,7 @@ theorem afw_retryOne (h e : Nat) {w : World} (ha : AFW w) : AFW (retryOne h e w)
 theorem afw_mstep {w w' : World} (hs : MStep w w') (ha : AFW w) : AFW w' := by
   cases hs with
   | clean h => exact afw_cleanAll h ha
-  | run h i => exact afw_runAt h i ha
+  | run h i flt => exact afw_stepAt h i flt ha
   | deliver i dup => exact afw_deliver i dup ha
   | drop i => exact ha
   | inject h m => exact afw_inject h m ha
@@ -666,6 +768,8 @@ theorem afw_mstep {w w' : World} (hs : MStep w w') (ha : AFW w) : AFW w' := by
   | handle h _ guard => exact afw_handleHead h ha guard
   | retry h e => exact afw_retryOne h e ha
   | advance d => exact ha
+  | exec h => exact afw_execHandle h ha
+  | injectE h ds => exact afw_injectE h ds ha
 
 theorem afw_mstar {w w' : World} (hs : MStar w w') (ha : AFW w) : AFW w' := by
   induction hs with
@@ -674,20 +778,64 @@ theorem afw_mstar {w w' : World} (hs : MStar w w') (ha : AFW w) : AFW w' := by
 
 /-! ### one timer iteration of `recv_loop` re-submits an overdue transfer -/
 
-theorem execKey_io (h : Nat) (key : Key) (w : World) (k : Nat) :
-    ((execKey h key w).hosts k).sock = (w.hosts k).sock ∧ ((execKey h key w).hosts k).inbox = (w.hosts k).inbox ∧
-    (execKey h key w).now = w.now := by
-  cases key with
-  | cmd c =>
-    simp only [execKey, execSend]
-    split
-    · simp [World.emit]
-    · split <;> simp [World.emit]
-  | pay p =>
-    simp only [execKey, execStore]
-    split
-    · simp [World.emit]
-    · simp [World.emit, World.setHost]; split <;> simp_all
+theorem report_io (h : Nat) (m : EMsg) (e : Event) (w : World) (k : Nat) :
+    ((w.report h m e).hosts k).sock = (w.hosts k).sock ∧ ((w.report h m e).hosts k).inbox = (w.hosts k).inbox ∧
+    (w.report h m e).now = w.now := by
+  simp [World.report, World.setHost, World.emit]; split <;> simp_all
+
+theorem stepAt_io (h i : Nat) (flt : Fault) (w : World) (k : Nat) :
+    ((stepAt h i flt w).hosts k).sock = (w.hosts k).sock ∧ ((stepAt h i flt w).hosts k).inbox = (w.hosts k).inbox ∧
+    (stepAt h i flt w).now = w.now := by
+  unfold stepAt
+  split
+  · simp
+  · split
+    · rename_i c st hget
+      split
+      · have hs := setFut_fields h i ⟨.cmd c, if (sendOpen h c flt w).2 then 1 else 0,
+          if (sendOpen h c flt w).2 then none else some (.ok w.now)⟩ (sendOpen h c flt w).1 k
+        have h1 : ((sendOpen h c flt w).1.hosts k).sock = (w.hosts k).sock ∧
+            ((sendOpen h c flt w).1.hosts k).inbox = (w.hosts k).inbox ∧ (sendOpen h c flt w).1.now = w.now := by
+          unfold sendOpen
+          split
+          · exact report_io _ _ _ _ k
+          · split
+            · exact report_io _ _ _ _ k
+            · split
+              · exact report_io _ _ _ _ k
+              · exact ⟨rfl, rfl, rfl⟩
+        exact ⟨hs.2.2.2.2.1.trans h1.1, hs.2.2.2.2.2.1.trans h1.2.1, hs.2.2.2.2.2.2.trans h1.2.2⟩
+      · have hs := setFut_fields h i ⟨.cmd c, st, some (sendData h c flt w).2⟩ (sendData h c flt w).1 k
+        have h1 : ((sendData h c flt w).1.hosts k).sock = (w.hosts k).sock ∧
+            ((sendData h c flt w).1.hosts k).inbox = (w.hosts k).inbox ∧ (sendData h c flt w).1.now = w.now := by
+          unfold sendData
+          split
+          · exact report_io _ _ _ _ k
+          · split
+            · exact report_io _ _ _ _ k
+            · exact ⟨rfl, rfl, rfl⟩
+        exact ⟨hs.2.2.2.2.1.trans h1.1, hs.2.2.2.2.2.1.trans h1.2.1, hs.2.2.2.2.2.2.trans h1.2.2⟩
+    · rename_i p st hget
+      have hs := setFut_fields h i ⟨.pay p, (storeStep h p st flt w).2.getD st,
+        if (storeStep h p st flt w).2.isSome then none else some (.ok w.now)⟩ (storeStep h p st flt w).1 k
+      have h1 : ((storeStep h p st flt w).1.hosts k).sock = (w.hosts k).sock ∧
+          ((storeStep h p st flt w).1.hosts k).inbox = (w.hosts k).inbox ∧ (storeStep h p st flt w).1.now = w.now := by
+        unfold storeStep
+        simp only
+        split
+        · split
+          · exact report_io _ _ _ _ k
+          · split
+            · exact ⟨rfl, rfl, rfl⟩
+            · simp [World.setHost]; split <;> simp_all
+        · split
+          · exact report_io _ _ _ _ k
+          · simp [World.setHost, World.emit]; split <;> simp_all
+        · split
+          · exact report_io _ _ _ _ k
+          · exact report_io _ _ _ _ k
+      exact ⟨hs.2.2.2.2.1.trans h1.1, hs.2.2.2.2.2.1.trans h1.2.1, hs.2.2.2.2.2.2.trans h1.2.2⟩
+    · simp
 
 theorem runChoice_io (h c : Nat) (w : World) (k : Nat) :
     ((runChoice h c w).hosts k).sock = (w.hosts k).sock ∧ ((runChoice h c w).hosts k).inbox = (w.hosts k).inbox ∧
@@ -698,17 +846,12 @@ theorem runChoice_io (h c : Nat) (w : World) (k : Nat) :
   · simp
   · split
     · simp
-    · unfold runAt
-      split
-      · simp
-      · split
-        · rename_i key _
-          have h1 := execKey_io h key w k
-          have h2 := execKey_io h key w h
-          by_cases hk : k = h
-          · subst hk; simp [World.setHost, h1]
-          · simp [World.setHost, hk, h1]
-        · simp
+    · rename_i i _
+      unfold runAt
+      have a := stepAt_io h i .none w k
+      have b := stepAt_io h i .none (stepAt h i .none w) k
+      have c := stepAt_io h i .none (stepAt h i .none (stepAt h i .none w)) k
+      exact ⟨c.1.trans (b.1.trans a.1), c.2.1.trans (b.2.1.trans a.2.1), c.2.2.trans (b.2.2.trans a.2.2)⟩
 
 theorem cleanAll_io (h : Nat) (w : World) (k : Nat) :
     ((cleanAll h w).hosts k).sock = (w.hosts k).sock ∧ ((cleanAll h w).hosts k).inbox = (w.hosts k).inbox ∧
